@@ -395,6 +395,16 @@ def _is_last_line(F, top, e, depth=0):
     r = F.resolve_const(top)
     if e.get("type") == "Identifier" and depth < 4:
         init = r(e["value"])
+        if init is None and e["value"] in F.params(top) and F.fn_name(top) and F.fn_name(top) not in exported_names(F.jf):
+            # a parameter of a local (not exported) helper: what its callers pass
+            i_ = F.params(top).index(e["value"])
+            sites = F.callers(F.fn_name(top))
+            if sites and all(len(args(c_)) > i_ for c_ in sites):
+                for c_ in sites:
+                    ok_, why_ = _is_last_line(F, F.enclosing_fn(c_), args(c_)[i_], depth + 1)
+                    if not ok_:
+                        return False, why_
+                return True, ""
         if init is None:
             return False, "`%s` is reassigned or not a local" % e["value"]
         return _is_last_line(F, top, init, depth + 1)
@@ -519,7 +529,14 @@ def rule_map_discovery(c, R, F, inline_value):
         expect_gate(c, R, R + "/file-read", jf.loc(reads[0]), reach.any_of(reads), goal, "the referenced map file is read", axioms)
         for rd in reads:
             a = args(rd)[0] if args(rd) else {}
-            c.expect(jsast.ident_name(a) == url, R, R + "/file-read-arg", jf.loc(rd), "reads the file the comment refers to", "reads %s, not the url of the comment" % JF.text(a)[:60])
+            # the url itself, or a constant holding its resolution `isAbsolute(url) ? url : join(dir, url)`
+            # (whose form the relative-url clause checks)
+            a_ = a
+            for _ in range(2):
+                if jsast.ident_name(a_) and jsast.ident_name(a_) != url and r(jsast.ident_name(a_)) is not None:
+                    a_ = JF.unparen(r(jsast.ident_name(a_)))
+            via_res = a_.get("type") == "ConditionalExpression" and JF.unparen(a_["test"]).get("type") == "CallExpression" and chain(JF.unparen(a_["test"]))[-1:] == ["isAbsolute"] and jsast.ident_name(args(JF.unparen(a_["test"]))[0]) == url
+            c.expect(jsast.ident_name(a) == url or via_res, R, R + "/file-read-arg", jf.loc(rd), "reads the file the comment refers to", "reads %s, not the url of the comment" % JF.text(a)[:60])
         # relative urls are resolved against the directory parameter, absolute ones kept
         for n in jsast.walk(top):
             if n.get("type") == "ConditionalExpression":
@@ -533,6 +550,18 @@ def rule_map_discovery(c, R, F, inline_value):
     c.floor(R, "reads of the referenced map file", len(reads), 1)
     # constructing the map
     news = [n for n in jsast.walk(top) if n.get("type") == "NewExpression" and jsast.ident_name(n["callee"]) == "SourceMap"]
+    if not news and F.fn_name(top) and F.fn_name(top) not in exported_names(jf):
+        # the raw text is returned by a local helper: the map is built where the helper is called, from the
+        # variable that receives its result
+        for cs_ in F.callers(F.fn_name(top)):
+            ct_ = F.enclosing_fn(cs_)
+            for n in jsast.walk(ct_):
+                if n.get("type") == "NewExpression" and jsast.ident_name(n["callee"]) == "SourceMap":
+                    news.append(n)
+                if n.get("type") == "VariableDeclarator" and n.get("init") is not None and any(x is cs_ for x in jsast.walk(n["init"])):
+                    raw = jsast.ident_name(n["id"])
+                if n.get("type") == "AssignmentExpression" and any(x is cs_ for x in jsast.walk(n["right"])):
+                    raw = jsast.ident_name(n["left"])
     c.floor(R, "SourceMap constructions", len(news), 1)
     if news and raw:
         expect_gate(c, R, R + "/construct", jf.loc(news[0]), reach.any_of(news), BF.atom("t:" + raw), "the SourceMap is constructed", axioms)
